@@ -17,6 +17,7 @@
 (*   RunMesh(mesh, symmetry)  -> number of bands, grid size                   *)
 (*   RunTotalDos(method)      -> total DOS on a frequency grid                *)
 (*   RunProjectedDos(kind)    -> projected DOS (atoms | xyz | direction triad)*)
+(*   RunReordered(order)      -> the same on a descending / shuffled grid     *)
 (* Steps are taken in the order of the event's step list.                     *)
 EXTENDS Integers, Sequences, FiniteSets, TLC
 
@@ -45,10 +46,15 @@ RunTotalDos == Advance("total") /\ meshDone /\ totalDone' = TRUE /\ UNCHANGED me
 (* projected DOS needs eigenvectors and the full grid *)
 RunProjectedDos == Advance("projected") /\ meshDone /\ UNCHANGED <<meshDone, totalDone>>
 
-ANext == RunMesh \/ RunTotalDos \/ RunProjectedDos
+(* the same DOS on a frequency grid that is not ascending: descending window  *)
+(* (freq_min > freq_max, negative pitch) through the API, shuffled / repeated  *)
+(* points through run_tetrahedron_method_dos and TetrahedronMesh               *)
+RunReordered == Advance("reordered") /\ meshDone /\ UNCHANGED <<meshDone, totalDone>>
+
+ANext == RunMesh \/ RunTotalDos \/ RunProjectedDos \/ RunReordered
 ASpec == AInit /\ [][ANext]_avars
 
-IsDos == HasCur /\ Cur.op \in {"total", "projected"}
+IsDos == HasCur /\ Cur.op \in {"total", "projected", "reordered"}
 
 -----------------------------------------------------------------------------
 (* the whole step list is consumed (no step is refused by the machine) *)
@@ -88,6 +94,10 @@ ImplDensityIsDerivative ==
 (* bands (times the analytically known mass of the kernel inside the window   *)
 (* for smearing): quadrature accuracy                                          *)
 ImplIntegral == (IsDos /\ Cur.op = "total") => Cur.integral = "ok"
+
+(* the value at a frequency point depends on that point only: a grid in any  *)
+(* order gives, point by point, the values of the ascending grid             *)
+ImplOrderIndependent == (IsDos /\ Cur.op = "reordered") => Cur.sameAsAscending = "ok"
 
 (* projections add up to the total at every frequency point *)
 ImplAdditive == (IsDos /\ Cur.op = "projected") => Cur.additive = "ok"
